@@ -121,7 +121,11 @@ fn check_selection<const N: usize>(mode: SchedulingMode, sym: Sym, fresh_cache: 
     // C04, override clause: at the call site (handle_srt_packet) the scheduler runs first, then must-land traffic
     // (critical window / retransmit) may be re-routed to `select_best_quality_eligible_idx`.  Whatever that returns
     // must satisfy the same eligibility rule, on the stall-gate flags exactly as the scheduler has just left them.
+    // build.rs looks at the call site: the contract is asserted on the selector the override actually calls
+    #[cfg(override_uses_eligible_selector)]
     let tgt = srtla_core::priority::select_best_quality_eligible_idx(&conns[..], now);
+    #[cfg(not(override_uses_eligible_selector))]
+    let tgt = srtla_core::priority::select_best_quality_idx(&conns[..]);
     let elig: [bool; N] = core::array::from_fn(|i| conns[i].connected && alive_registered[i] && !*conns[i].vh_stall_gated());
     match tgt {
         Some(t) => {
